@@ -4,6 +4,7 @@ from ..expressions import (
     AddExpression,
     BinaryExpression,
     ConstantExpression,
+    EqualExpression,
     MathExpression,
     MultiplyExpression,
     NegateExpression,
@@ -53,6 +54,10 @@ class ConstantsSimplifyRule(BaseRule):
          - Chained Right Deep
             * node(add),node.left(const),node.right(add),node.right.left(const)
         """
+        # An equation between two constants is not arithmetic to be folded
+        if isinstance(node, EqualExpression):
+            return None
+
         # Check for a negation wrapping a simple binary op with constants
         # -(3 + 2)
         if isinstance(node, NegateExpression):
